@@ -37,8 +37,51 @@ py_isdigit = z3.Function("py_isdigit", STR, BOOL)
 ff_run = z3.Function("ff_run", INT, BYTES)  # n bytes of 0xFF
 
 EMPTY = strlit("")
+
+
+def _literal_facts(t, sv):
+    """facts about a literal, computed with the real builtins"""
+    out = []
+    try:
+        v = int(sv)
+        out.append(py_int_ok(t))
+        out.append(py_int(t) == v)
+        if str(v) == sv:
+            out.append(py_str(z3.IntVal(v)) == t)
+    except ValueError:
+        out.append(z3.Not(py_int_ok(t)))
+    out.append(py_rstrip(t) == strlit(sv.rstrip()))
+    out.append(py_strip(t) == strlit(sv.strip()))
+    for ch in (";", "/", ",", "\n"):
+        out.append(s_contains(t, strlit(ch)) == z3.BoolVal(ch in sv))
+    return out
+
+
+from . import core as _core
+
+if _literal_facts not in _core.LITERAL_FACT_HOOKS:
+    _core.LITERAL_FACT_HOOKS.append(_literal_facts)
 # single-character separators for which "contains distributes over concatenation" is instantiated
 SEP_CHARS = (";", "/", ",", "\n")
+
+
+def _tokens(txt):
+    out, run = [], ""
+    for ch in txt:
+        if ch in SEP_CHARS:
+            if run:
+                out.append(run)
+                run = ""
+            out.append(ch)
+        else:
+            run += ch
+    if run:
+        out.append(run)
+    return out
+
+
+def _is_run(tok):
+    return tok not in SEP_CHARS
 
 
 def is_cat(t):
@@ -83,17 +126,25 @@ class LawBook:
         return t
 
     def concat(self, parts):
-        """Concatenation in normal form: flat, no empty literals, adjacent literals merged."""
+        """Concatenation in normal form: flat; literals are cut into tokens at the separator characters
+        (each separator is its own token, runs of other characters are merged), so that a literal ";1;"
+        and the pieces ";" ++ str(x) ++ ";" have the same shape and congruence can relate them."""
         flat = []
+
+        def push_lit(txt):
+            for tok in _tokens(txt):
+                if flat and lit_value(flat[-1]) is not None and _is_run(lit_value(flat[-1])) and _is_run(tok):
+                    flat[-1] = strlit(lit_value(flat[-1]) + tok)
+                else:
+                    flat.append(strlit(tok))
+
         for p in parts:
             for q in flatten(p):
                 lv = lit_value(q)
-                if lv == "":
-                    continue
-                if lv is not None and flat and lit_value(flat[-1]) is not None:
-                    flat[-1] = strlit(lit_value(flat[-1]) + lv)
-                else:
+                if lv is None:
                     flat.append(q)
+                elif lv != "":
+                    push_lit(lv)
         if not flat:
             return EMPTY
         t = flat[-1]
@@ -109,6 +160,11 @@ class LawBook:
         c = self.ctx
         c.add_fact(s_len(t) == self.length(a) + self.length(b))
         self.length(t)
+        # identity: concatenating with the empty string changes nothing
+        if lit_value(b) is None:
+            c.add_fact(z3.Implies(b == EMPTY, t == a))
+        if lit_value(a) is None:
+            c.add_fact(z3.Implies(a == EMPTY, t == b))
         for ch in SEP_CHARS:
             cl = strlit(ch)
             c.add_fact(s_contains(t, cl) == z3.Or(self.contains(a, cl), self.contains(b, cl)))
@@ -158,6 +214,8 @@ class LawBook:
                     # rstrip(x ++ y) = x ++ rstrip(y) when rstrip(y) is not empty
                     ry = self.rstrip(last)
                     c.add_fact(z3.Implies(ry != EMPTY, r == self.concat([head, ry])))
+                    # ... and when y is all blanks it disappears
+                    c.add_fact(z3.Implies(ry == EMPTY, r == self.rstrip(head)))
         return r
 
     def strip(self, s):
